@@ -758,16 +758,17 @@ func (e *executor) exec(line string) (res string) {
 						out, stop = "panic", true
 					}
 				}()
+				left := len(d) - before // what the stream still holds when the call starts
 				declared := 0
-				if before < len(r.data) {
-					declared = declaredLen(r.data[before:])
+				if left > 0 {
+					declared = declaredLen(d[before:])
 				}
 				a0 := allocated()
 				p, err := mq.ReadPacket(r)
 				a := allocated() - a0
 				c := r.consumed - before
-				if a > allocLimit(len(r.data), declared) {
-					return fmt.Sprintf("FAIL alloc=%d input=%d declared=%d", a, len(r.data), declared), true
+				if a > allocLimit(left, declared) {
+					return fmt.Sprintf("FAIL alloc=%d input=%d declared=%d", a, left, declared), true
 				}
 				switch {
 				case p != nil && err == nil:
